@@ -20,6 +20,8 @@ import (
 //	2: 1 package, 2 L2 cache groups of 2 cores x 2 threads    (8 CPUs)
 //	3: hybrid: 2 P-cores x 2 threads + 4 E-cores in 2 clusters (8 CPUs)
 //	4: 1 package x 4 cores x 2 threads, two base-frequency bins (8 CPUs)
+//	5: 1 package, 8 single-thread cores, 4 L2 cache groups of 2 cores (8 CPUs):
+//	   requests that take an idle group and then exactly the rest of a used one
 func verifTopology(k int) (sysfs.System, int) {
 	var cpus []sysfs.VerifCPU
 	nodes := []sysfs.VerifNode{{ID: 0, Pkg: 0, MemType: sysfs.MemoryTypeDRAM, Normal: true, Distance: []int{10}}}
@@ -48,6 +50,10 @@ func verifTopology(k int) (sysfs.System, int) {
 		for id := 4; id < 8; id++ { // E-cores: clusters of 2
 			cpus = append(cpus, sysfs.VerifCPU{ID: id, Core: id, Cluster: 2 + (id-4)/2, Kind: E, EPP: sysfs.EPPUnknown, CacheGroup: -1})
 		}
+	case 5:
+		for id := 0; id < 8; id++ {
+			cpus = append(cpus, sysfs.VerifCPU{ID: id, Core: id, Cluster: id / 2, Kind: P, EPP: sysfs.EPPUnknown, CacheGroup: id / 2})
+		}
 	default:
 		for id := 0; id < 8; id++ {
 			f := uint64(2000000)
@@ -63,7 +69,7 @@ func verifTopology(k int) (sysfs.System, int) {
 func verifPickTopology() (sysfs.System, int) {
 	mask := verifParam("topoMask", 1)
 	var enabled []int
-	for k := 0; k < 5; k++ {
+	for k := 0; k < 6; k++ {
 		if mask&(1<<uint(k)) != 0 {
 			enabled = append(enabled, k)
 		}
